@@ -199,9 +199,10 @@ def check_frame(root, spec, kind, i, variant, base=None):
 
 
 def reported(stdout, stderr, name):
-    """Is the source named in a line that is not its success line?"""
+    """Is the source named (as a whole word) in a line that is not its success line?"""
+    pat = re.compile(r'(?<![A-Za-z0-9_])' + re.escape(name) + r'(?![A-Za-z0-9_])', re.I if name == B.SUPP_NAME else 0)
     for line in (stdout + '\n' + stderr).splitlines():
-        if name.lower() in line.lower():
+        if pat.search(line):
             if re.match(r'^\s*' + re.escape(name) + r': \d+ transactions\s*$', line):
                 continue
             if line.strip().lower().startswith('supplemental sources:'):
